@@ -4,6 +4,7 @@ package main
 
 import (
 	"bytes"
+	"crypto"
 	"encoding"
 	"encoding/binary"
 	"fmt"
@@ -18,9 +19,24 @@ import (
 	"verifharness/hx"
 )
 
+// useRegistry: construct unkeyed BLAKE2 hashes through crypto.Hash.New() where a registered size exists
+var useRegistry bool
+
 func newHash(alg string, size int, key []byte) (hash.Hash, error) {
 	if len(key) == 0 {
 		key = nil
+	}
+	if useRegistry && key == nil {
+		switch {
+		case alg == "b" && size == 32:
+			return crypto.BLAKE2b_256.New(), nil
+		case alg == "b" && size == 48:
+			return crypto.BLAKE2b_384.New(), nil
+		case alg == "b" && size == 64:
+			return crypto.BLAKE2b_512.New(), nil
+		case alg == "s":
+			return crypto.BLAKE2s_256.New(), nil
+		}
 	}
 	switch alg {
 	case "b":
@@ -66,6 +82,8 @@ func runOps(m *mutLog, h hash.Hash, ops []string, data []byte) (outs []string, r
 			}
 		case op == "r":
 			p = step(func() { h.Reset() })
+		case op == "z":
+			outs = append(outs, fmt.Sprintf("z%d.%d", h.Size(), h.BlockSize()))
 		case strings.HasPrefix(op, "rd"):
 			var n int
 			fmt.Sscanf(op[2:], "%d", &n)
@@ -103,6 +121,10 @@ func runOps(m *mutLog, h hash.Hash, ops []string, data []byte) (outs []string, r
 		default:
 			return nil, nil, false
 		}
+		if p == "panic:api" { // raised before anything changes (Write/Sum after Read): the object stays usable
+			outs = append(outs, p)
+			continue
+		}
 		if p != "" {
 			return append(outs, p), data, true
 		}
@@ -135,6 +157,7 @@ func exec(line string) string {
 	size := o.Int("size")
 	data := o.Hex("data")
 	var m mutLog
+	useRegistry = o.Str("reg") == "1"
 	switch o.Cmd {
 	case "rt":
 		var h1 hash.Hash
@@ -150,6 +173,17 @@ func exec(line string) string {
 		}
 		data = data[consumed(pre):]
 		mb, err := h1.(encoding.BinaryMarshaler).MarshalBinary()
+		if ab, ok := h1.(interface {
+			AppendBinary([]byte) ([]byte, error)
+		}); ok && err == nil && o.Str("ab") == "1" {
+			// encoding.BinaryAppender (legacy Keccak): prefix preserved, result = prefix ‖ MarshalBinary
+			prefix := []byte("appended-to:")
+			buf := append(make([]byte, 0, 64), prefix...) // too small: forces growth part-way
+			out, aerr := ab.AppendBinary(buf)
+			if aerr != nil || !bytes.HasPrefix(out, prefix) || !bytes.Equal(out[len(prefix):], mb) {
+				m.add("appendbinary")
+			}
+		}
 		if err != nil {
 			return "pre:" + show(outs0) + " merr mut=" + m.String()
 		}
@@ -264,6 +298,9 @@ func postOps(r *hx.Rand, alg string, total *int) []string {
 		ops = append(ops, "w0")
 	}
 	ops = append(ops, "s")
+	if r.Chance(1, 10) {
+		ops = append(ops, "z")
+	}
 	if alg[0] == 'k' && r.Chance(1, 3) {
 		ops = append(ops, fmt.Sprintf("rd%d", r.PickInt(0, 1, 31, bs-1, bs, bs+1, 2*bs+3)))
 		if r.Bool() {
@@ -281,8 +318,9 @@ func postOps(r *hx.Rand, alg string, total *int) []string {
 	return ops
 }
 
-func genRT(g *hx.Gen) {
+func genRT(g *hx.Gen, cv *cover) {
 	r := g.R
+	var feats []string
 	alg := r.PickStr("b", "b", "s", "s", "k256", "k512")
 	bs := bsOf(alg)
 	size := 32
@@ -296,7 +334,7 @@ func genRT(g *hx.Gen) {
 	}
 	n := r.PickInt(0, 1, bs-1, bs, bs+1, 2*bs, 2*bs+1, r.Intn(601), r.Intn(601), r.Intn(601))
 	pre := chunks(r, n, bs)
-	if r.Chance(1, 5) && len(pre) > 0 {
+	if r.Chance(1, 3) && len(pre) > 0 {
 		at := r.Intn(len(pre) + 1)
 		pre = append(pre[:at:at], append([]string{r.PickStr("s", "r")}, pre[at:]...)...)
 	}
@@ -307,7 +345,46 @@ func genRT(g *hx.Gen) {
 	total := n
 	post := postOps(r, alg, &total)
 	g.Stat("rt." + alg)
-	g.Emit("rt alg=%s size=%d key=%s pre=%s post=%s data=%s", alg, size, hx.Hex(key), hx.JoinStrs(pre), hx.JoinStrs(post), hx.Hex(r.Bytes(total)))
+	reg, ab := 0, 0
+	if alg[0] != 'k' && len(key) == 0 && r.Chance(1, 3) {
+		if alg == "b" {
+			size = r.PickInt(32, 48, 64)
+		}
+		reg = 1
+		feats = append(feats, "registered")
+	}
+	if alg[0] == 'k' && r.Chance(1, 2) {
+		ab = 1
+		feats = append(feats, "appendbinary")
+	}
+	feats = append(feats, "kind-"+alg)
+	if len(key) > 0 {
+		feats = append(feats, "keyed")
+	}
+	jp, jq := ","+strings.Join(pre, ",")+",", ","+strings.Join(post, ",")+","
+	if strings.Contains(jp, ",s,") {
+		feats = append(feats, "pre-sum")
+	}
+	if strings.Contains(jp, ",r,") {
+		feats = append(feats, "pre-reset")
+	}
+	if strings.Contains(jp, ",rd") {
+		feats = append(feats, "squeezing")
+	}
+	if n == 0 {
+		feats = append(feats, "empty-pre")
+	}
+	if n > 0 && n%bs == 0 {
+		feats = append(feats, "exact-blocks")
+	}
+	if strings.Contains(jq, ",r,") {
+		feats = append(feats, "post-reset")
+	}
+	if strings.Contains(jq, ",z,") {
+		feats = append(feats, "size-probe")
+	}
+	cv.pairs(feats...)
+	g.Emit("rt alg=%s size=%d key=%s reg=%d ab=%d pre=%s post=%s data=%s", alg, size, hx.Hex(key), reg, ab, hx.JoinStrs(pre), hx.JoinStrs(post), hx.Hex(r.Bytes(total)))
 }
 
 // validState returns a marshaled state of alg built field by field (layout of MarshalBinary).
@@ -365,9 +442,61 @@ func validState(r *hx.Rand, alg string) []byte {
 	return append(b, byte(n), byte(r.Intn(2)))
 }
 
-func emitUM(g *hx.Gen, alg string, state []byte) {
+// umArm names the check of UnmarshalBinary a byte string is aimed at (bookkeeping for the coverage counters
+// only; the expected observable always comes from the Lean model)
+func umArm(alg string, st []byte) string {
+	if alg[0] == 'k' {
+		rate := bsOf(alg)
+		switch {
+		case len(st) != 207:
+			return "length"
+		case string(st[:4]) != "sha\x0b":
+			return "ident"
+		case int(st[4]) != rate:
+			return "func"
+		case int(st[205]) > rate:
+			return "n"
+		case st[206] > 1:
+			return "dir"
+		case st[206] == 1:
+			return "ok-squeezing"
+		}
+		return "ok-absorbing"
+	}
+	magic, total, maxSize, bs := "b2b", 213, 64, 128
+	if alg == "s" {
+		magic, total, maxSize, bs = "b2s", 109, 32, 64
+	}
+	switch {
+	case len(st) < 3 || string(st[:3]) != magic:
+		return "ident"
+	case len(st) != total:
+		return "length"
+	case st[total-bs-2] < 1 || int(st[total-bs-2]) > maxSize:
+		return "size"
+	case int(st[total-1]) > bs:
+		return "offset"
+	}
+	return "ok"
+}
+
+func emitUM(g *hx.Gen, cv *cover, alg string, state []byte) {
 	total := 0
 	post := postOps(g.R, alg, &total)
+	arm := umArm(alg, state)
+	cv.hit("unmarshal-arm."+alg, arm)
+	feats := []string{"kind-" + alg, "um-" + arm}
+	jq := "," + strings.Join(post, ",") + ","
+	if strings.Contains(jq, ",r,") {
+		feats = append(feats, "post-reset")
+	}
+	if strings.Contains(jq, ",z,") {
+		feats = append(feats, "size-probe")
+	}
+	if strings.Contains(jq, ",rd") {
+		feats = append(feats, "post-read")
+	}
+	cv.pairs(feats...)
 	g.Emit("um alg=%s size=%d state=%s post=%s data=%s", alg, g.R.Range(1, 64), hx.Hex(state), hx.JoinStrs(post), hx.Hex(g.R.Bytes(total)))
 }
 
@@ -394,6 +523,12 @@ func fieldPos(alg, field string) int {
 
 func gen(g *hx.Gen) {
 	r := g.R
+	cv := newCover(g)
+	cv.declare("unmarshal-arm.b", 5)
+	cv.declare("unmarshal-arm.s", 5)
+	cv.declare("unmarshal-arm.k256", 7)
+	cv.declare("unmarshal-arm.k512", 7)
+	defer cv.report()
 	// every value of every range-checked byte, on every hash kind
 	for _, af := range []string{"b.size", "b.offset", "s.size", "s.offset", "k256.rate", "k256.n", "k256.dir", "k512.rate", "k512.n", "k512.dir"} {
 		alg, field, _ := strings.Cut(af, ".")
@@ -401,13 +536,13 @@ func gen(g *hx.Gen) {
 			st := validState(r, alg)
 			st[fieldPos(alg, field)] = byte(v)
 			g.Stat("um.all256." + af)
-			emitUM(g, alg, st)
+			emitUM(g, cv, alg, st)
 		}
 	}
 	n := g.Count(2500, 120000)
 	for i := 0; i < n; i++ {
 		if r.Chance(1, 2) {
-			genRT(g)
+			genRT(g, cv)
 			continue
 		}
 		alg := r.PickStr("b", "s", "k256", "k512")
@@ -465,7 +600,7 @@ func gen(g *hx.Gen) {
 				st[fieldPos(alg, "offset")] = byte(bsOf(alg) + r.Range(-1, 1))
 			}
 		}
-		emitUM(g, alg, st)
+		emitUM(g, cv, alg, st)
 	}
 }
 
